@@ -31,3 +31,48 @@ CHECKS["C16"] = {
     "outside": ["views larger than the bound n", "sets with more ranges than r", "digit strings longer than the bound", "the wire-level BAD rendering"],
     "assumptions": ["view UIDs strictly ascending (snapshot invariant, enforced by snapMsgList.insert)", "set numbers within the parser's post-condition (checked by the number/seqnumber harnesses)"],
 }
+
+CHECKS["C17"] = {
+    "explanation": "Symbolic execution of limits.IMAP.Check* (real go/ssa) with every input and every configured maximum a symbolic full-width value; both directions (accepted => within the maximum in overflow-free arithmetic; fits => accepted) decided by SMT for all values (no bound on the values).",
+    "harnesses": [
+        {"name": "limits", "pkg": "limits", "pkgname": "limits", "entry": "VerifC17Limits", "files": ["zz_verif_c17.go"],
+         "params": {"quick": [{}], "thorough": [{}]}, "cover": []},
+    ],
+    "stubs": [],
+    "outside": ["concurrent sessions racing between check and insert (serialised by the database write lock)"],
+    "assumptions": ["counts passed by callers are non-negative (they are len() values / row counts)"],
+}
+
+CHECKS["C13"] = {
+    "explanation": "Symbolic execution of the FETCH byte-exactness kernels through their real go/ssa with symbolic message bytes, offsets and lengths.",
+    "harnesses": [
+        {"name": "partial", "pkg": "internal/response", "pkgname": "response", "entry": "VerifC13Partial", "files": ["zz_verif_c13.go"],
+         "params": {"quick": grid(len=[0, 1, 2, 4]), "thorough": grid(len=[0, 1, 2, 3, 4, 5, 6, 8])}, "cover": []},
+    ],
+    "stubs": [],
+    "outside": ["literals longer than the byte bound", "the {n} framing text produced by fmt from len(literal)", "store round trip (C09)"],
+    "assumptions": ["partial begin >= 0 and count > 0 (parser post-condition: ParseNumber / ParseNZNumber)"],
+}
+
+SCAN_SUMMARISE = [
+    "(*github.com/ProtonMail/gluon/rfcparser.Scanner).ScanToken",
+    "github.com/ProtonMail/gluon/rfcparser.IsAStringChar",
+    "github.com/ProtonMail/gluon/rfcparser.IsAtomChar",
+    "github.com/ProtonMail/gluon/rfcparser.IsQuotedSpecial",
+    "github.com/ProtonMail/gluon/rfcparser.IsRespSpecial",
+    "github.com/ProtonMail/gluon/rfcparser.IsQuotedChar",
+    "github.com/ProtonMail/gluon/rfcparser.IsCTL",
+    "github.com/ProtonMail/gluon/rfcparser.ByteToLower",
+]
+
+CHECKS["C11"] = {
+    "explanation": "Symbolic execution of command.Parser.Parse and everything below it (rfcparser scanner/parser, all command builders) on an arbitrary symbolic byte string of bounded length after a fixed positioning prefix, followed by end of stream; the scanner's per-byte classification is merged into one ite term (local fork/join) so that paths correspond to distinctions the parser makes.",
+    "harnesses": [
+        {"name": "parse", "pkg": "imap/command", "pkgname": "command", "entry": "VerifC11Parse", "files": ["zz_verif_c11.go", "zz_verif_reader.go"],
+         "params": {"quick": grid(prefix=[0], n=[1, 2, 3]) + grid(prefix=[1, 2, 3, 4, 5, 6, 7, 8, 9, 10, 11, 12, 13, 15, 16, 17, 18], n=[1, 2, 3]), "thorough": grid(prefix=[0], n=[1, 2, 3, 4])},
+         "summarise": SCAN_SUMMARISE, "cover": []},
+    ],
+    "stubs": ["rfcparser.Reader -> fixed symbolic buffer then io.EOF, counting reads past the end"],
+    "outside": ["inputs longer than the byte bound", "RSS / liveness of other sessions", "the 20-errors disconnect in Session.serve (goroutines)", "TLS sniffing"],
+    "assumptions": [],
+}
